@@ -30,6 +30,53 @@ def all_functions(mod):
     return out
 
 
+def operand_ownership_rule(ctx, R4):
+    arch = ctx.mod('ia32_arch')
+    dis = arch.method('x86_mn', '_dis')
+    helpers = {}
+    for hname in ('get_afs', 'get_afs_re'):
+        hf = arch.method('x86allmncs', hname)
+        hfr = Freshness(hf)
+        rets = [n for n in ast.walk(hf) if isinstance(n, ast.Return)]
+        pos_fresh = {}
+        for r in rets:
+            v = r.value
+            elts = v.elts if isinstance(v, ast.Tuple) else [v]
+            for i, e in enumerate(elts):
+                pos_fresh.setdefault(i if isinstance(v, ast.Tuple) else None, []).append(hfr.is_fresh_expr(e) or isinstance(e, ast.Name) and e.id in ('re',))
+        helpers[hname] = pos_fresh
+
+    def fresh_call(call, idx):
+        f = call.func
+        name = f.attr if isinstance(f, ast.Attribute) else (f.id if isinstance(f, ast.Name) else None)
+        if name in helpers:
+            vals = helpers[name].get(idx)
+            return bool(vals) and all(vals)
+        return False
+    fr = Freshness(dis, fresh_call=fresh_call)
+    sinks = []
+    for n in walk_no_nested(dis):
+        if isinstance(n, ast.Call) and isinstance(n.func, ast.Attribute) and n.func.attr == 'append' \
+                and u(n.func.value) in ('mnemo_args', 'dib_out') and n.args:
+            sinks.append((n, n.args[0]))
+        if isinstance(n, ast.Assign) and u(n.targets[0]) == 'mnemo_args' and isinstance(n.value, ast.BinOp):
+            for side in (n.value.left, n.value.right):
+                if isinstance(side, ast.List):
+                    for e in side.elts:
+                        sinks.append((n, e))
+    for node, val in sinks:
+        inst = '_dis:%s' % norm(node)
+        if fr.is_fresh_at(val, node if isinstance(node, ast.stmt) else fr._stmt_of(node)):
+            R4.ok(inst, sample='%s: operand created in the decoder' % inst)
+        else:
+            R4.violation(inst, inst, 'the decoder stores %s into the instruction\'s operand list without copying it: the object is owned by the opcode table / module '
+                         'and is shared by every instruction decoded from that row' % norm(val), where(arch, node),
+                         witness='dis(d3 e0).arg[1] is ia32_arch.r_cl itself: mutating one decoded operand changes later decodes')
+    if not sinks:
+        raise AnalysisError('no operand sinks found in _dis')
+
+
+
 def run(ctx, report):
     mods = [ctx.mod(m) for m in SCOPE]
     report.explanation = (
@@ -124,49 +171,7 @@ def run(ctx, report):
                              where(m, fn))
 
     R4 = report.rule('C12.D4', 'table-owned objects do not escape into decoded instructions', floor=8)
-    arch = ctx.mod('ia32_arch')
-    dis = arch.method('x86_mn', '_dis')
-    helpers = {}
-    for hname in ('get_afs', 'get_afs_re'):
-        hf = arch.method('x86allmncs', hname)
-        hfr = Freshness(hf)
-        rets = [n for n in ast.walk(hf) if isinstance(n, ast.Return)]
-        pos_fresh = {}
-        for r in rets:
-            v = r.value
-            elts = v.elts if isinstance(v, ast.Tuple) else [v]
-            for i, e in enumerate(elts):
-                pos_fresh.setdefault(i if isinstance(v, ast.Tuple) else None, []).append(hfr.is_fresh_expr(e) or isinstance(e, ast.Name) and e.id in ('re',))
-        helpers[hname] = pos_fresh
-
-    def fresh_call(call, idx):
-        f = call.func
-        name = f.attr if isinstance(f, ast.Attribute) else (f.id if isinstance(f, ast.Name) else None)
-        if name in helpers:
-            vals = helpers[name].get(idx)
-            return bool(vals) and all(vals)
-        return False
-    fr = Freshness(dis, fresh_call=fresh_call)
-    sinks = []
-    for n in walk_no_nested(dis):
-        if isinstance(n, ast.Call) and isinstance(n.func, ast.Attribute) and n.func.attr == 'append' \
-                and u(n.func.value) in ('mnemo_args', 'dib_out') and n.args:
-            sinks.append((n, n.args[0]))
-        if isinstance(n, ast.Assign) and u(n.targets[0]) == 'mnemo_args' and isinstance(n.value, ast.BinOp):
-            for side in (n.value.left, n.value.right):
-                if isinstance(side, ast.List):
-                    for e in side.elts:
-                        sinks.append((n, e))
-    for node, val in sinks:
-        inst = '_dis:%s' % norm(node)
-        if fr.is_fresh_at(val, node if isinstance(node, ast.stmt) else fr._stmt_of(node)):
-            R4.ok(inst, sample='%s: operand created in the decoder' % inst)
-        else:
-            R4.violation(inst, inst, 'the decoder stores %s into the instruction\'s operand list without copying it: the object is owned by the opcode table / module '
-                         'and is shared by every instruction decoded from that row' % norm(val), where(arch, node),
-                         witness='dis(d3 e0).arg[1] is ia32_arch.r_cl itself: mutating one decoded operand changes later decodes')
-    if not sinks:
-        raise AnalysisError('no operand sinks found in _dis')
+    operand_ownership_rule(ctx, R4)
 
     R5 = report.rule('C12.D5', 'parser-table cache is guarded by the grammar signature', floor=6)
     yacc = ctx.mod('yacc')
